@@ -65,10 +65,15 @@ def run(tier, seed):
                              {"code": code, "meaning": "index of first differing call; 1000 host log, 1001 globals, 1002 memory, 1003 pages", "case": cases[idx[k]]})
                 shown += 1
     typed_coverage_stream(ck, seed, 40 if tier == "quick" else 1500, dist)
+    import c01_ssa   # SSA stream: the CFG-level passes of the optimizing compiler, validated by the verified checkers of Engine/SsaCfg.v
+    c01_ssa.stream(ck, [{"wasm": h} for h in _TC_HEX[:20 if tier == "quick" else 400]] + cases, tier, seed, dist, engines_agree)
     ck.dist = dist
     if not proofs_ok and not ck.violations:
         ck.violation("proof-broken", {"kind": "proof-broken"}, getattr(ck, "proof_failure", {}), no_input=True)
     return ck.finish()
+
+
+_TC_HEX = []
 
 
 def typed_coverage_stream(ck, seed, n, dist):
@@ -109,6 +114,7 @@ def typed_coverage_stream(ck, seed, n, dist):
                              {"id": i, "decode": r["dec"], "compile": comp, "wasm_hex": inputs[i]["hex"]})
             continue
         tc["ran"] += 1
+        _TC_HEX.append(inputs[i]["hex"])   # also goes through the SSA stream (c01_ssa.py)
         ro = (r.get("run") or {}).get("interp") or {}
         tc["calls"] += ro.get("calls", 0)
         for k, v in (ro.get("outcomes") or {}).items():
